@@ -229,6 +229,7 @@ func runChild(in, out string) {
 func reopenImages(self string, cfg config, dirs []string, scratch string) []result {
 	out := make([]result, len(dirs))
 	done := make([]bool, len(dirs))
+	retried := make([]bool, len(dirs))
 	next := 0
 	for next < len(dirs) {
 		var jobs []childJob
@@ -281,6 +282,13 @@ func reopenImages(self string, cfg config, dirs []string, scratch string) []resu
 		// the child died while opening image next+started
 		if started < 0 || done[next+started] {
 			tl.Fatal("child failed outside an open: %v\n%s", runErr, stderr.String())
+		}
+		if !retried[next+started] {
+			// make sure it is the image and not the machine (a process killed under memory pressure
+			// must not look like a failed open): the same image once more, alone
+			retried[next+started] = true
+			next = next + started
+			continue
 		}
 		tail := stderr.String()
 		if len(tail) > 400 {
@@ -505,7 +513,7 @@ type runner struct {
 	recording bool
 	shapes    map[string]bool
 	imgSeen   map[string]bool
-	script    string
+	dead      bool // the main line crashed into an image that does not open
 	nextID    int
 	imgSeq    int
 	points    int
@@ -749,7 +757,7 @@ func (rn *runner) ret(name string, err error) {
 }
 
 // history runs one seeded history on a fresh freezer.
-func (rn *runner) history(h int, steps int) {
+func (rn *runner) history(h int, steps int, script string) {
 	dir := filepath.Join(rn.scratch, fmt.Sprintf("fz-%d", h))
 	rn.tk = &tracker{dur: map[string][]byte{}}
 	rn.imgSeen = map[string]bool{}
@@ -811,11 +819,35 @@ func (rn *runner) history(h int, steps int) {
 		}
 		shape += string(kind)
 	}
-	if rn.script != "" {
-		for _, tok := range strings.Split(rn.script, ",") {
+	if script != "" {
+		for _, tok := range strings.Split(script, ",") {
 			arg := 0
 			if len(tok) > 1 {
 				arg, _ = strconv.Atoi(tok[1:])
+			}
+			// a scripted call whose precondition does not hold in the real state (the real crash images
+			// differ from the model's) is skipped
+			lo := 0
+			for _, v := range rn.tail {
+				lo = max(lo, v)
+			}
+			switch tok[0] {
+			case 'h':
+				if arg < lo || arg >= rn.head {
+					continue
+				}
+			case 't':
+				if len(rn.cfg.groups()) == 0 || arg <= rn.tail[rn.cfg.groups()[0]] || arg > rn.head {
+					continue
+				}
+			case 'c':
+				if crashes >= 3 {
+					continue
+				}
+			case 'a':
+				if arg < 1 {
+					continue
+				}
 			}
 			do(tok[0], arg)
 			if !rn.recording {
@@ -861,7 +893,10 @@ func (rn *runner) history(h int, steps int) {
 		}
 	}
 	rn.recording = false
-	rn.fr.Close()
+	if !rn.dead {
+		rn.fr.Close()
+	}
+	rn.dead = false
 	rn.sum.Traces++
 	rn.shapes[shape] = true
 }
@@ -928,10 +963,14 @@ func (rn *runner) mainCrash(h, k int) {
 	if !pres.OK {
 		rn.tr.Emit(tl.M{"op": "reopen", "res": pres, "lens": map[string]any{}})
 		rn.recording = false
+		rn.fr.Close()
+		rn.dead = true
 		return
 	}
-	// abandon the old instance without closing it (a crash does not sync)
+	// the old instance is abandoned: its directory is no longer looked at (the image is a copy), so it can
+	// be closed to release descriptors and the lock - before the tracker is switched to the image
 	rn.recording = false
+	rn.fr.Close()
 	rn.tk = &tracker{dur: newDur}
 	if err := rn.open(dir); err != nil {
 		tl.Fatal("reopen after probe succeeded: %v", err)
@@ -970,6 +1009,7 @@ func main() {
 	every := flag.Bool("every-length", false, "propose every byte length between durable and current")
 	flag.BoolVar(&unsyncedTail, "unsynced-tail", false, "also truncate the tail above the synced head")
 	script := flag.String("script", "", "run this history instead of random ones, e.g. a2,s,t1,h1,c,a1 (append/sync/tail/head/crash)")
+	scripts := flag.String("scripts", "", "JSON file with call histories sampled by TLC ([[{c,n}..]..]) to run before the random ones")
 	out := flag.String("out", "summary.json", "summary output")
 	flag.Parse()
 	if *mode == "child" {
@@ -994,11 +1034,34 @@ func main() {
 	if err != nil {
 		tl.Fatal("executable: %v", err)
 	}
-	rn := &runner{cfg: cfg, cfgName: *cfgName, self: self, scratch: *dir, r: tl.Rand(seed), sum: sum, thor: *every, perPt: *perPt, nextID: 1, shapes: map[string]bool{}, script: *script}
+	rn := &runner{cfg: cfg, cfgName: *cfgName, self: self, scratch: *dir, r: tl.Rand(seed), sum: sum, thor: *every, perPt: *perPt, nextID: 1, shapes: map[string]bool{}}
 	rn.tr = tl.NewTrace(*trace)
 	rawdb.VerifHook = rn.hook
-	for h := 0; h < *n; h++ {
-		rn.history(h, *steps)
+	h := 0
+	if *scripts != "" {
+		// behaviours sampled by TLC from MCFreezer.tla (call tokens [c, n])
+		var hs [][]struct {
+			C string `json:"c"`
+			N int    `json:"n"`
+		}
+		tl.ReadJSON(*scripts, &hs)
+		for _, hist := range hs {
+			var toks []string
+			for _, t := range hist {
+				toks = append(toks, fmt.Sprintf("%s%d", t.C, t.N))
+			}
+			rn.history(h, 0, strings.Join(toks, ","))
+			h++
+		}
+	}
+	if *script != "" {
+		rn.history(h, 0, *script)
+		h++
+	} else {
+		for i := 0; i < *n; i++ {
+			rn.history(h, *steps, "")
+			h++
+		}
 	}
 	rn.tr.Close()
 	sum.Steps = rn.tr.N
